@@ -108,7 +108,7 @@ func (u *universe) concrete() map[string]any {
 //
 //	CASE {"s": schema | "u": universe, "exp": ["T"|"F"|"x", ...], "res": "ok"|"err"}
 func init() {
-	families["eval"] = &Family{Run: runEval}
+	families["eval"] = &Family{Run: runEval, Describe: func(c any) any { return map[string]any{"schema": universeOf(abs.Obj(c)).concrete()} }}
 }
 
 func runEval(hdr Header, c any, src string) CaseResult {
